@@ -19,17 +19,22 @@ def _normal(p):
     return not any(e.d.get("raised") for e in p.trace) and p.outcome != "raise"
 
 
+_STATE = {}
+
+
 def _spec(ctx, rel, suffix):
-    site = ctx.site(rel, suffix)
-    return site, site.handler_specs("on_next")[0]
+    site = ctx.site(rel, suffix, kind="mux")
+    spec = site.handler_specs("on_next")[0]
+    _STATE[id(spec)] = ctx.only_state(site)
+    return site, spec
 
 
-def _reads(p, name="state"):
-    return [e for e in p.trace if e.k == "store" and e.op == "get_state" and e.state[0] == "free" and e.state[1] == name]
+def _reads(p, name=None):
+    return [e for e in p.trace if e.k == "store" and e.op == "get_state" and e.state is not None and e.state[0] == "free" and (name is None or e.state[1] == name)]
 
 
-def _writes(p, name="state"):
-    return [e for e in p.trace if e.k == "store" and e.op == "set_state" and e.state[0] == "free" and e.state[1] == name]
+def _writes(p, name=None):
+    return [e for e in p.trace if e.k == "store" and e.op == "set_state" and e.state is not None and e.state[0] == "free" and (name is None or e.state[1] == name)]
 
 
 def _notset_outcome(p, read):
@@ -44,9 +49,11 @@ def _items(p):
     return [m for m in mux_emissions(p, roles=("down",)) if m.event is not None and m.event.kind == "Next"]
 
 
-def _probe_default(ctx, spec, name="state"):
+def _probe_default(ctx, spec, name=None):
     from .st import state_vars
     sv = state_vars(ctx, spec)
+    if name is None:
+        name = _STATE.get(id(spec))
     if name not in sv:
         raise AnalysisError("%s: state '%s' is not created in the Probe branch" % (spec.qualname, name))
     return dict(sv[name].kwargs)
